@@ -412,6 +412,19 @@ def rule_ms(ctx: Ctx):
         elif ok:
             ok = v is not None and v[0] == "modvar" and v[1] == MARKERS["NOTSET"]
         r4.ob(ok, lambda: _f("MS-4", "get_map", mm, fn, "get_map must return values[key[0]][map_key] if map_key is in the dict (by ==/hash), else STATE_NOTSET", trace_of(p)))
+    # frame of the allocator: the counter moves only in add_map (through new_index); a method that rewinds or rebinds it can make
+    # new_index hand out an index that a live (parent key, map key) pair still owns
+    for meth in cls[0].body:
+        if not isinstance(meth, ast.FunctionDef) or meth.name in ("add_map", "__init__"):
+            continue
+        for p in ctx.fn_paths(m, meth, max_iter=1):
+            r4.paths += 1
+            for e in p.trace:
+                if e.k == "attrstore" and e.base == SELF and e.attr in ("next_index", "free_slots"):
+                    r4.ob(False, lambda e=e, meth=meth, p=p: _f(
+                        "MS-4", "%s{allocator-frame}" % meth.name, m, e.node,
+                        "%s rebinds self.%s (%s): group indices are allocated by add_map only; moving the counter elsewhere lets new_index hand out an index "
+                        "that is still in use by another parent key" % (meth.name, e.attr, e.brief()), trace_of(p)))
     # free_slots only grows in del_index; its callers (none today) must drop the map entry
     callers = []
     for rel2, m2 in prog.by_relpath.items():
